@@ -3,6 +3,7 @@ CONSTANTS
   Keys = {1,2}
   Vals = {0,1,2}
   Cls <- ClsId
+  NanKey = 0
   WithCmp = FALSE
 VIEW View
 ACTION_CONSTRAINT Dump
